@@ -24,7 +24,7 @@ def lin(outs_list, coefs):
     return res
 
 
-def make_transform(ck, kind):
+def make_transform(ck, kind, force_sym=None):
     """returns (name, input shapes, call(list of arrays)->outputs, tol[, layout])"""
     rng = ck.rng
     L = rng.randint(2, 8); m = rng.choice(gen.MODES5)
@@ -55,16 +55,17 @@ def make_transform(ck, kind):
                 lambda xs: rt.run_impl(rt.Case('Z', 'SWTForward', [2, Js, 2], [w0, w1, xs[0]]), TABLE), 0.0)
     filt = dt_filters(rng)
     o, ri = (2, -1) if rng.random() < 0.6 else rng.choice(LAYOUTS)
+    sym = rng.choice([1, 1, 0]) if force_sym is None else force_sym         # 'symmetric' and 'zero' padding
     if kind == 'DTCWTForward':
         H = rng.randint(2, 14); W = rng.randint(2, 14)
         skm = rng.choice([0, 0, rng.randint(0, 2 ** J - 1)])
-        return ('DTCWTForward J=%d layout=(%d,%d) skip=%s' % (J, o, ri, bin(skm)), [(nb, c, H, W)],
-                lambda xs: rt.run_impl(rt.Case('Q', 'DTCWTForward', [o, ri, 1, J, skm, 0], filt + [xs[0]]), TABLE), 1e-9, (o, ri))
+        return ('DTCWTForward J=%d layout=(%d,%d) skip=%s mode=%s' % (J, o, ri, bin(skm), 'symmetric' if sym else 'zero'), [(nb, c, H, W)],
+                lambda xs: rt.run_impl(rt.Case('Q', 'DTCWTForward', [o, ri, sym, J, skm, 0], filt + [xs[0]]), TABLE), 1e-9, (o, ri))
     H = rng.randint(2, 14); W = rng.randint(2, 14)
     (lh, lw), hsz = pyramid_shapes(H, W, J)
     shapes = [(nb, c, lh, lw)] + [canon_to_layout(np.zeros((nb, c, 6, a, b, 2)), o, ri).shape for a, b in hsz]
-    return ('DTCWTInverse J=%d layout=(%d,%d)' % (J, o, ri), shapes,
-            lambda xs: rt.run_impl(rt.Case('Q', 'DTCWTInverse', [o, ri, 1, 0], filt + list(xs)), TABLE), 1e-9, (o, ri))
+    return ('DTCWTInverse J=%d layout=(%d,%d) mode=%s' % (J, o, ri, 'symmetric' if sym else 'zero'), shapes,
+            lambda xs: rt.run_impl(rt.Case('Q', 'DTCWTInverse', [o, ri, sym, 0], filt + list(xs)), TABLE), 1e-9, (o, ri))
 
 
 KINDS = ['DWT1DForward', 'DWT1DInverse', 'DWTForward', 'DWTInverse', 'SWTForward', 'DTCWTForward', 'DTCWTInverse']
@@ -96,13 +97,18 @@ def put(z, x, n0, c0, lay):
     z[tuple(idx)] = x[tuple(idx)]
 
 
-def oracle_linear(ck, kind):
+def oracle_linear(ck, kind, force_sym=None, zero_k=None):
     rng = ck.rng
-    mt = make_transform(ck, kind)
+    mt = make_transform(ck, kind, force_sym)
     name, shapes, call, tol = mt[:4]
     lay = mt[4] if len(mt) > 4 else None
     xs = [gen.int_tensor(rng, s, 5) for s in shapes]
     ys = [gen.int_tensor(rng, s, 5) for s in shapes]
+    if zero_k is not None and zero_k < len(xs):
+        xs[zero_k] = np.zeros_like(xs[zero_k])
+    elif len(xs) > 1 and rng.random() < 0.4:
+        # one argument of x is present but identically zero (a thresholded band): still an ordinary linear input
+        k = rng.randrange(len(xs)); xs[k] = np.zeros_like(xs[k])
     a, b = rng.randint(-4, 4), rng.randint(-4, 4)
     replay = {'oracle': 'linear', 'kind': kind, 'note': 'configuration drawn from the check PRNG: re-run with the same VERIF_SEED'}
     tx, ty = call(xs), call(ys)
@@ -151,10 +157,17 @@ def run(ck):
     if not getattr(ck, 'no_lean', False):
         ck.lean = rt.lean_check(PROP, MODULE, THEOREMS, regen=regen_all)
     st = rt.correspond('impl-model(dwt)', dwt_cases(ck, 150 if q else 1500, ['afb1d', 'sfb1d', 'afb1d_atrous', 'AFB2D_fwd', 'SFB2D_fwd', 'DWTForward']), TABLE)
-    st2 = rt.correspond('impl-model(dtcwt)', dtcwt_cases(ck, 120 if q else 1200, ['coldfilt', 'rowdfilt', 'colifilt', 'rowifilt', 'colfilter', 'DTCWTForward']), TABLE)
+    st2 = rt.correspond('impl-model(dtcwt)', dtcwt_cases(ck, 140 if q else 1400, ['coldfilt', 'rowdfilt', 'colifilt', 'rowifilt', 'colfilter', 'DTCWTForward', 'DTCWTInverse']), TABLE)
     ck.corr += [st, st2]
     for it in range(70 if q else 700):
         rt.guard(ck, oracle_linear, ck, KINDS[it % len(KINDS)])
+    # present-but-zero arguments in both padding modes: every argument position of the inverse transforms in turn
+    for rep in range(1 if q else 8):
+        for zk in (0, 1, 2):
+            for sm in (0, 1):
+                rt.guard(ck, oracle_linear, ck, 'DTCWTInverse', sm, zk)
+            rt.guard(ck, oracle_linear, ck, 'DWTInverse', None, zk)
+            rt.guard(ck, oracle_linear, ck, 'DWT1DInverse', None, zk)
     if ((ck.lean is not None and not ck.lean.ok) or st.mismatches or st2.mismatches) and not ck.failures:
         for it in range(210):
             rt.guard(ck, oracle_linear, ck, KINDS[it % len(KINDS)])
